@@ -1297,6 +1297,8 @@ struct MetaFieldDefinitions {
 impl MetaFieldDefinitions {
     fn get() -> &'static Self {
         static DEFS: OnceLock<MetaFieldDefinitions> = OnceLock::new();
+        #[cfg(apollo_rs_verif)]
+        let _verif_region = crate::verif::once_region("once:MetaFieldDefinitions");
         DEFS.get_or_init(|| Self {
             // __typename: String!
             __typename: Component::new(FieldDefinition {
